@@ -249,8 +249,11 @@ def check(case, ctx):
         return
     comp = case['comp']
     opts = case['opts']
-    st, dist = lib.call(p.isotopic_distribution, copy.deepcopy(comp), **opts)
+    given = copy.deepcopy(comp)
+    st, dist = lib.call(p.isotopic_distribution, given, **opts)
     ctx.evals += 1
+    if given != comp or list(given) != list(comp):
+        ctx.fail('composition-argument-changed', comp, given, call=['isotopic_distribution', comp, opts])
     call = ['isotopic_distribution', comp, opts]
     if st != 'ok':
         ctx.fail('raises', 'distribution', dist, call=call)
